@@ -326,6 +326,33 @@ def run(ctx):
                       "configurations, which walks every node)",
                       how="an is_ref() test that continues / encloses precedes every `attr.type == GRAPH(S)` dispatch that reads attr.value", construct=f"reference attributes reach the graph dispatch of {g.local}")
     ctx.require(n7 >= 2, "graph-attribute dispatches of sort() / the recursive iterator not found")
+    # … and passing over one attribute does not end the walk over the others: the loops over a node's attributes are left only
+    # by running out of attributes (no `return` / `break` of their own - a reference attribute is skipped with `continue`)
+    n7b = 0
+    for g in parts + [repo.func("onnx_ir.traversal:RecursiveGraphIterator._iterate_subgraphs")]:
+        for lp in (x for x in own_nodes(g.node) if isinstance(x, ast.For) and any(isinstance(y, ast.Attribute) and y.attr == "attributes" for y in ast.walk(x.iter))):
+            n7b += 1
+            bad = None
+            stack = list(lp.body)
+            while stack:
+                st = stack.pop()
+                if isinstance(st, (ast.FunctionDef, ast.AsyncFunctionDef, ast.Lambda)):
+                    continue
+                if isinstance(st, ast.Return) or (isinstance(st, ast.Break)):
+                    bad = bad or st
+                for ch in ast.iter_child_nodes(st):
+                    if isinstance(ch, (ast.For, ast.While)):
+                        # a break inside an inner loop leaves that loop only; a return still leaves everything
+                        stack += [r for r in ast.walk(ch) if isinstance(r, ast.Return)]
+                    else:
+                        stack.append(ch)
+            ctx.check("R7", f"{g.local}: the loop over the node's attributes visits every attribute", bad is None, g, bad if bad is not None else lp,
+                      f"`{norm(bad) if bad is not None else ''}` inside the loop over `{norm(lp.iter)[:50]}` ends the walk at the first attribute it applies to: a graph attribute stored after a "
+                      "reference attribute is never visited, so the nodes of that subgraph are missing from the traversal and from the sort (its producers are not ordered, "
+                      "a cycle through it goes unnoticed)",
+                      how="no return / break directly in the body of the loops over <node>.attributes in sort() and the recursive iterator",
+                      construct=f"walk over the attributes of a node cut short in {g.local}")
+    ctx.require(n7b >= 2, "loops over a node's attributes in sort() / the recursive iterator not found")
     # R6
     n_nested = 0
     for fn in [q for p_ in parts for q in [p_] + list(p_.nested.values())]:
